@@ -211,6 +211,26 @@ def run(repo: Repo, chk: Check, thorough: bool = False) -> None:
            f"the ']' test is only reached when `{norm(bang[0].test)}` is {dep[0][1]}: `[!]...]` closes the set at the first ']' and matches something else", repo.loc(tr.mod, close[0]))
     chk.require('R13.1', 15)
 
+    # the verdict of qnmatch() is the verdict of the translated expression: every return hands back the result of the compiled matcher applied to the
+    # name.  A shortcut in front of it (a "cheap" depth or prefix filter) is a second, hand-written matcher that has to agree with the documented
+    # meaning of `?`, `[seq]` and `[!seq]` as well (they match a dot) - the table checked above says nothing about it
+    qm = repo.func('pydoctor.qnmatch.qnmatch')
+    qn_name = qm.params()[0].arg
+    from ..util import values_of as _vo13
+    matchers = {t.id for n in qm.walk() if isinstance(n, ast.Assign) and isinstance(n.value, ast.Call) and call_name(n.value) in ('_compile_pattern', 'compile', 'translate')
+                for t in n.targets if isinstance(t, ast.Name)}
+    rets = [r for r in qm.walk() if isinstance(r, ast.Return)]
+    if not rets:
+        raise AnalysisError('R13.1: qnmatch.qnmatch has no return statement')
+    for r in rets:
+        through = r.value is not None and any(isinstance(c, ast.Call) and ((isinstance(c.func, ast.Name) and c.func.id in matchers) or
+                                                                           call_name(c) in ('match', 'fullmatch') or
+                                                                           (isinstance(c.func, ast.Call) and call_name(c.func) == '_compile_pattern')) and
+                                              any(isinstance(a, ast.Name) and a.id == qn_name for a in c.args) for c in ast.walk(r.value))
+        chk.ob('R13.1', 'qnmatch.qnmatch :: every verdict is the verdict of the translated expression', through,
+               f'`{norm(r)}`' if through else
+               f'`{norm(r)}` decides without asking the translated expression: e.g. a depth pre-filter (same number of dots in name and pattern) makes `a?b`, '
+               '`a[!x]b` stop matching `a.b`, although `?` and `[!seq]` stand for any one character', repo.loc(qm.mod, r))
     # ------------------------------------------------------------------ R13.2
     pc = repo.func('pydoctor.model.System.privacyClass')
     cfg = CFG(pc)
